@@ -10,15 +10,17 @@ import itertools
 
 NEST_KINDS = ['if', 'else', 'for', 'while', 'elif']
 
-# call kinds: (name, expression template, eval extra-args form or None, needs)
+# call kinds: (name, expression, eval extra-args form or None, user variables the call needs to see)
+# The innermost generated body references u, x and out (and binds x); it does not reference a, b, v.
+VISIBLE_IN_INNERMOST_BODY = ('u', 'x', 'out')
 # {d} = depth index of the innermost body, names: a, b params; u, v, t* locals; G0 global
 EVAL_CALLS = [
-    ('eval_local_ref',   "eval('u + 1')", []),
-    ('eval_local_unref', "eval('v')", []),
-    ('eval_param',       "eval('b * 2')", []),
+    ('eval_local_ref',   "eval('u + 1')", [], ['u']),
+    ('eval_local_unref', "eval('v')", [], ['v']),
+    ('eval_param',       "eval('b * 2')", [], ['b']),
     ('eval_global',      "eval('G0 + 1')", []),
     ('eval_builtin',     "eval('len([1, 2])')", []),
-    ('eval_body_local',  "eval('x + 1')", []),
+    ('eval_body_local',  "eval('x + 1')", [], ['x']),
     ('eval_compiled',    "eval(CODE0)", []),
     ('eval_g_only',      "eval('u', {'u': 1000})", [('obj',)]),
     ('eval_g_only_glob', "eval('G0', {'G0': 7})", [('obj',)]),
@@ -30,9 +32,9 @@ EVAL_CALLS = [
     ('eval_g_none',      "eval('u', {'u': 1000}, None)", [('obj',), 'none']),
 ]
 LOCALS_CALLS = [
-    ('locals_get',  "locals()['u']"),
-    ('locals_keys', "sorted(k for k in locals() if k in ('a', 'b', 'u', 'v', 'out', 'x'))"),
-    ('locals_vals', "[locals().get(k, 'MISSING') for k in ('a', 'b', 'u', 'v')]"),
+    ('locals_get',  "locals()['u']", None, ['u']),
+    ('locals_keys', "sorted(k for k in locals() if k in ('a', 'b', 'u', 'v', 'out', 'x'))", None, ['a', 'b', 'u', 'v', 'out', 'x']),
+    ('locals_vals', "[locals().get(k, 'MISSING') for k in ('a', 'b', 'u', 'v')]", None, ['a', 'b', 'u', 'v']),
 ]
 GLOBALS_CALLS = [
     ('globals_get', "globals()['G0']"),
@@ -75,7 +77,8 @@ def function_program(n, nest, call):
     lines.append(ind + 'out.append(%s)' % expr)
     lines.append('    return out')
     return {'name': 'f_%d' % n, 'kind': name.split('_')[0], 'call': name, 'nest': list(nest), 'src': '\n'.join(lines) + '\n',
-            'entry': 'f_%d' % n, 'cls': None, 'args': [[1, 5], [2, 7]], 'extra': call[2] if len(call) > 2 else None}
+            'entry': 'f_%d' % n, 'cls': None, 'args': [[1, 5], [2, 7]], 'extra': call[2] if len(call) > 2 else None,
+            'needs': list(call[3]) if len(call) > 3 else []}
 
 
 def method_program(n, nest, call, decorator=None):
@@ -88,7 +91,7 @@ def method_program(n, nest, call, decorator=None):
     lines.append('    ' + ind + 'out.append(%s)' % expr)
     lines.append('        return out')
     return {'name': 'Der_%d.m' % n, 'kind': 'super', 'call': name, 'nest': list(nest), 'src': '\n'.join(lines) + '\n',
-            'entry': 'm', 'cls': 'Der_%d' % n, 'args': [[1], [2, 9]], 'extra': None}
+            'entry': 'm', 'cls': 'Der_%d' % n, 'args': [[1], [2, 9]], 'extra': None, 'needs': []}
 
 
 def all_nests(max_depth):
